@@ -188,6 +188,9 @@ func c28Run(c *fx.Ctx) {
 				}
 				baseObs, baseErr := guard(func() (string, error) { return e.memory(doc) })
 				c.Distinct("nontrivial", e.name+string(doc))
+				if c.Index()%41 == 0 {
+					c.Sample(map[string]interface{}{"entry": e.name, "document": fmt.Sprintf("%x", clipB(doc)), "example_script": scriptString(env.Script{At: map[int]env.Answer{1: {Kind: env.Zero}, 2: {Kind: env.Short, K: 1}}})})
+				}
 				// 0 deviations
 				n := c28CheckScript(c, e, doc, baseObs, baseErr, env.Script{}, "default")
 				// saturated scripts
